@@ -610,10 +610,34 @@ func (g *G) genLocInval(id string) *History {
 	scheme := pick(g, "http", "https")
 	dport := map[string]string{"http": "80", "https": "443"}[scheme]
 	host := pick(g, "a.test", "shop.example", "[::1]")
-	b := scheme + "://" + host + "/b"
+	bpath := "/b"
+	b := scheme + "://" + host + bpath
 	get := func(at int64, body string) Op {
-		return Op{Op: "req", AtNs: at, Method: "GET", URL: pick(g, b, scheme+"://"+host+":"+dport+"/b", strings.ToUpper(scheme)+"://"+strings.ToUpper(host)+"/b"),
+		return Op{Op: "req", AtNs: at, Method: "GET", URL: pick(g, scheme+"://"+host+bpath, scheme+"://"+host+":"+dport+bpath, strings.ToUpper(scheme)+"://"+strings.ToUpper(host)+bpath),
 			Replies: []Reply{{Status: 200, Body: body, BodyFail: -1, Hdr: Hdr{{"Date", dateAt(at, 0)}, {"Cache-Control", "max-age=600"}}}}}
+	}
+	if g.chance(0.3) {
+		// the named URI spelled with dot segments and empty segments: the reference is resolved (RFC 3986 §5.2.2) and
+		// normalised like a request URI — "%2e" is a dot before dot segments are removed, ".." above the root does not
+		// swallow the empty segment that follows it
+		type grp struct {
+			stored string
+			locs   []string
+		}
+		gr := []grp{
+			{"//b", []string{"/..//b", "..//b", "../..//b", "/x/../..//b", scheme + "://" + host + "/..//b", scheme + "://" + host + "//b", "//" + host + "//b"}},
+			{"/a/%2e%2e/../b", []string{scheme + "://" + host + "/a/%2e%2e/../b", "/a/%2e%2e/../b", "/a/%2E/../b", "/b", "/a/c/.%2e/../../b"}},
+			{"/b", []string{"/a/%2e%2e/../b", "/a/%2e%2e/b", "%2e/b", "/a/..%2fb", "/a/b"}}, // the last two name other URIs
+			{"/d/b", []string{"../d/b", "./b", "b", "/d/./b", "/d/b?", "/d/b#frag", "?q", ""}},
+		}[g.r.Intn(4)]
+		bpath = gr.stored
+		h.Ops = append(h.Ops, get(0, "b1"))
+		target := scheme + "://" + host + pick(g, "/p", "/d/p", "/d/b")
+		h.Ops = append(h.Ops, Op{Op: "req", AtNs: 10 * sec, Method: pick(g, "POST", "PUT", "DELETE", "PATCH"), URL: target,
+			Replies: []Reply{{Status: pick(g, 200, 201, 204), BodyFail: -1, Body: "w",
+				Hdr: Hdr{{"Date", dateAt(10*sec, 0)}, {pick(g, "Location", "Content-Location"), pick(g, gr.locs...)}}}}})
+		h.Ops = append(h.Ops, get(20*sec, "b2"))
+		return h
 	}
 	h.Ops = append(h.Ops, get(0, "b1"))
 	loc := pick(g, b, scheme+"://"+host+":"+dport+"/b", scheme+"://"+host+":/b", strings.ToUpper(scheme)+"://"+strings.ToUpper(host)+":"+dport+"/x/../b", "/b", "b", "./b", "//"+host+"/b", "//"+host+":"+dport+"/b",
